@@ -4,52 +4,72 @@ namespace WindVerif.Pool
 
 variable {s s' t : St}
 
-/-- `afterResults` touches only the consumer's local data and its pc -/
+/-- `afterResults` touches only the consumer's local data and its pc; it goes on in the result loop (`finished` does not
+decrease) or — on the first emission of a call only — into the mid-call `until_all_ready()` -/
 theorem afterResults_view (s0 : St) : ∃ c' b' w' buf' wf' fin' out',
     afterResults s0 = { s0 with buffer := buf', wf := wf', finished := fin', out := out', batch := b', woken := w',
                                 cpc := c' } ∧
-    (c' = .flowClear ∨ c' = .flowIsSet ∨ c' = .rdSending) := by
-  cases hc : s0.cur with
-  | none =>
-    refine ⟨.rdSending, s0.batch, s0.woken, s0.buffer, s0.wf, s0.finished, s0.out, ?_, Or.inr (Or.inr rfl)⟩
-    unfold afterResults consumeBatch
-    simp [hc]
-  | some call =>
-    cases ho : call.ordered
-    · refine ⟨.rdSending, [], false, s0.buffer, s0.wf, s0.finished + s0.batch.length,
-        s0.out ++ s0.batch.map (fun j => (s0.callNo, j)), ?_, Or.inr (Or.inr rfl)⟩
-      unfold afterResults consumeBatch
-      simp [hc, ho]
-    · have hcb : consumeBatch s0 =
-          { s0 with buffer := (consumeBatch.go s0 s0.batch s0.buffer s0.wf s0.finished s0.out).1,
-                    wf := (consumeBatch.go s0 s0.batch s0.buffer s0.wf s0.finished s0.out).2.1,
-                    finished := (consumeBatch.go s0 s0.batch s0.buffer s0.wf s0.finished s0.out).2.2.1,
-                    out := (consumeBatch.go s0 s0.batch s0.buffer s0.wf s0.finished s0.out).2.2.2, batch := [],
-                    woken := false } := by
-        unfold consumeBatch
-        simp [hc, ho]
-      generalize consumeBatch.go s0 s0.batch s0.buffer s0.wf s0.finished s0.out = g at hcb
-      obtain ⟨buf, wf, fin, out⟩ := g
-      dsimp only at hcb
-      have hcur : (consumeBatch s0).cur = some call := by rw [hcb]; exact hc
-      cases hbf : bufferFull (consumeBatch s0)
-      · refine ⟨.flowIsSet, [], false, buf, wf, fin, out, ?_, Or.inr (Or.inl rfl)⟩
-        have har : afterResults s0 = { consumeBatch s0 with cpc := .flowIsSet } := by
-          unfold afterResults; simp [hcur, ho, hbf]
-        rw [har, hcb]; simp [hc]
-      · refine ⟨.flowClear, [], false, buf, wf, fin, out, ?_, Or.inl rfl⟩
-        have har : afterResults s0 = { consumeBatch s0 with cpc := .flowClear } := by
-          unfold afterResults; simp [hcur, ho, hbf]
-        rw [har, hcb]; simp [hc]
+    (((c' = .flowClear ∨ c' = .flowIsSet ∨ c' = .rdSending) ∧ s0.finished ≤ fin') ∨
+     (∃ wid, c' = .midReady 0 wid ∧ s0.cur.isSome = true ∧ s0.finished = 0 ∧ 0 < fin')) := by
+  obtain ⟨c', heq, hcl⟩ := afterResults_eq s0
+  rcases Option.eq_none_or_eq_some s0.cur with hc | ⟨call, hc⟩
+  · have hcb : consumeBatch s0 = s0 := by unfold consumeBatch; rw [hc]
+    rw [hcb] at heq hcl
+    refine ⟨c', s0.batch, s0.woken, s0.buffer, s0.wf, s0.finished, s0.out, heq, ?_⟩
+    rcases hcl with ⟨h, _⟩ | ⟨wid, _, _, _, h0, hpos⟩
+    · exact Or.inl ⟨h, Nat.le_refl _⟩
+    · omega
+  · obtain ⟨buf, wf, fin, out, hcb, hfin⟩ := consumeBatch_view0 s0 call hc
+    refine ⟨c', [], false, buf, wf, fin, out, by rw [heq, hcb], ?_⟩
+    rcases hcl with ⟨h, _⟩ | ⟨wid, h, _, _, h0, hpos⟩
+    · exact Or.inl ⟨h, hfin⟩
+    · rw [hcb] at hpos
+      exact Or.inr ⟨wid, h, by rw [hc]; rfl, h0, hpos⟩
+
+/-! ### the room for the mid-call `until_all_ready()` -/
+
+theorem midB_le_of (h1 : t.procs.length = s.procs.length)
+    (h2 : t.callsLeft.length + (if t.cur.isSome ∧ t.finished = 0 then 1 else 0) ≤
+      s.callsLeft.length + (if s.cur.isSome ∧ s.finished = 0 then 1 else 0)) : midB t ≤ midB s := by
+  unfold midB; rw [h1]; exact Nat.mul_le_mul_left _ h2
+
+/-- `finished` does not decrease: the room does not grow -/
+theorem midB_mono_fin (h1 : t.procs.length = s.procs.length) (h2 : t.callsLeft = s.callsLeft) (h3 : t.cur = s.cur)
+    (h4 : s.finished ≤ t.finished) : midB t ≤ midB s := by
+  apply midB_le_of h1
+  rw [h2, h3]
+  apply Nat.add_le_add_left
+  by_cases hc : s.cur.isSome ∧ t.finished = 0
+  · have : s.cur.isSome ∧ s.finished = 0 := ⟨hc.1, by have := hc.2; omega⟩
+    rw [if_pos hc, if_pos this]; exact Nat.le_refl _
+  · rw [if_neg hc]; exact Nat.zero_le _
+
+/-- the first emission of a call releases the room of that call -/
+theorem midB_release (h1 : t.procs.length = s.procs.length) (h2 : t.callsLeft = s.callsLeft) (h3 : t.cur = s.cur)
+    (hc : s.cur.isSome = true) (h0 : s.finished = 0) (h4 : 0 < t.finished) : midB t + (s.procs.length + 1) = midB s := by
+  unfold midB
+  rw [h1, h2, h3]
+  have e1 : (if s.cur.isSome ∧ t.finished = 0 then 1 else 0) = 0 := if_neg (fun h => by have := h.2; omega)
+  have e2 : (if s.cur.isSome ∧ s.finished = 0 then 1 else 0) = 1 := if_pos ⟨hc, h0⟩
+  rw [e1, e2]
+  simp only [Nat.add_zero, Nat.mul_add, Nat.mul_one]
 
 /-- a consumer step inside a phase: the calls to come are the same -/
-theorem meas_lt_C (e1 : t.cur = s.cur) (e2 : t.callsLeft = s.callsLeft) (e3 : t.procs.length = s.procs.length)
+theorem meas_lt_CM (e1 : t.cur = s.cur) (e2 : t.callsLeft = s.callsLeft) (e3 : t.procs.length = s.procs.length)
     (e4 : preStart t = preStart s) (e5 : mF t = mF s) (e6 : mW t = mW s)
-    (h : pos t.cpc (fresh t) s.procs.length + mR t + mQ t < pos s.cpc (fresh s) s.procs.length + mR s + mQ s) :
+    (h : pos t.cpc (fresh t) s.procs.length + midB t + mR t + mQ t <
+      pos s.cpc (fresh s) s.procs.length + midB s + mR s + mQ s) :
     meas t < meas s := by
   unfold meas mC futW pendCall
   rw [e1, e2, e3, e4, e5, e6]
   omega
+
+theorem meas_lt_C (e1 : t.cur = s.cur) (e2 : t.callsLeft = s.callsLeft) (e3 : t.procs.length = s.procs.length)
+    (e4 : preStart t = preStart s) (e5 : mF t = mF s) (e6 : mW t = mW s)
+    (h : pos t.cpc (fresh t) s.procs.length + mR t + mQ t < pos s.cpc (fresh s) s.procs.length + mR s + mQ s)
+    (e9 : midB t ≤ midB s := by exact Nat.le_refl _) :
+    meas t < meas s :=
+  meas_lt_CM e1 e2 e3 e4 e5 e6 (by omega)
 
 theorem pos_after {c' : CPc} (h : c' = .flowClear ∨ c' = .flowIsSet ∨ c' = .rdSending) (b : Bool) (n : Nat) :
     pos c' b n ≤ 2 * n + 2 + 27 := by
@@ -65,6 +85,11 @@ theorem meas_newCall_lt {call : Call} {rest : List Call} (hcl : s.callsLeft = ca
     (e5 : mF t = mF s) (e6 : mW t = mW s) (e7 : mR t = mR s) (e8 : mQ t = mQ s)
     (hp : 2 * s.procs.length + 2 + 12 ≤ pos s.cpc (fresh s) s.procs.length) : meas t < meas s := by
   have hfw := futW_callsLeft s
+  have hmid : midB t ≤ midB s := by
+    apply midB_le_of (by rw [e4])
+    rw [e1, hcl]
+    simp only [List.length_cons]
+    split <;> omega
   unfold meas
   rw [e5, e6, e7, e8]
   have hps : pos t.cpc (fresh t) s.procs.length ≤ 2 * s.procs.length + 2 + 39 := by
@@ -72,11 +97,11 @@ theorem meas_newCall_lt {call : Call} {rest : List Call} (hcl : s.callsLeft = ca
   have hpr : preStart t = true := by
     unfold preStart; rcases e3 with h | h <;> rw [h]
   have hm' : mC t = callW call.chunks + (rest.map (fun c => callW c.chunks)).sum + 40 * rest.length +
-      pos t.cpc (fresh t) s.procs.length := by
+      pos t.cpc (fresh t) s.procs.length + midB t := by
     unfold mC futW pendCall
     rw [hpr, e1, e2, e4]; rfl
   rw [hm']
-  have hm : mC s = futW s + 40 * s.callsLeft.length + pos s.cpc (fresh s) s.procs.length := rfl
+  have hm : mC s = futW s + 40 * s.callsLeft.length + pos s.cpc (fresh s) s.procs.length + midB s := rfl
   rw [hm]
   rw [hcl] at hfw ⊢
   simp only [List.map_cons, List.sum_cons, List.length_cons] at hfw ⊢
@@ -84,19 +109,23 @@ theorem meas_newCall_lt {call : Call} {rest : List Call} (hcl : s.callsLeft = ca
 
 theorem meas_exit_lt (hcl : s.callsLeft = []) (e1 : t.callsLeft = s.callsLeft)
     (e3 : t.cpc = .done ∨ t.cpc = .exitPut 0) (e4 : t.procs = s.procs)
-    (e5 : mF t = mF s) (e6 : mW t = mW s) (e7 : mR t = mR s) (e8 : mQ t = mQ s)
+    (e5 : mF t = mF s) (e6 : mW t = mW s) (e7 : mR t = mR s) (e8 : mQ t = mQ s) (e9 : t.cur = none)
     (hp : 2 * s.procs.length + 2 + 12 ≤ pos s.cpc (fresh s) s.procs.length) : meas t < meas s := by
+  have hmid : midB t ≤ midB s := by
+    apply midB_le_of (by rw [e4])
+    rw [e1, e9]
+    simp
   unfold meas
   rw [e5, e6, e7, e8]
   have hps : pos t.cpc (fresh t) s.procs.length ≤ 2 * s.procs.length + 1 := by
     rcases e3 with h | h <;> rw [h] <;> simp [pos]; omega
   have hpr : preStart t = false := by
     unfold preStart; rcases e3 with h | h <;> rw [h]
-  have hm' : mC t = pos t.cpc (fresh t) s.procs.length := by
+  have hm' : mC t = pos t.cpc (fresh t) s.procs.length + midB t := by
     unfold mC futW pendCall
     rw [hpr, e1, e4, hcl]; simp
   rw [hm']
-  have hm : mC s = futW s + 40 * s.callsLeft.length + pos s.cpc (fresh s) s.procs.length := rfl
+  have hm : mC s = futW s + 40 * s.callsLeft.length + pos s.cpc (fresh s) s.procs.length + midB s := rfl
   rw [hm]
   omega
 
@@ -110,7 +139,7 @@ theorem meas_toNextCall (hp : 2 * s.procs.length + 2 + 12 ≤ pos s.cpc (fresh s
     cases s.cfg.factory <;> simp
   · rw [heq]
     refine meas_exit_lt hcl rfl ?_ rfl (mF_congr rfl rfl rfl rfl) (mW_congr rfl) (mR_congr rfl rfl)
-      (mQ_congr rfl rfl) hp
+      (mQ_congr rfl rfl) rfl hp
     show (if s.procs.length = 0 then CPc.done else CPc.exitPut 0) = CPc.done ∨ _ = CPc.exitPut 0
     by_cases hf : s.procs.length = 0 <;> simp [hf]
 
@@ -122,7 +151,7 @@ theorem meas_startWorker {k : Nat} {w : Worker} (hL : LInv s) (hg : getWorker s 
   unfold wWeight at hmw
   simp only [hpc, wOff] at hmw
   unfold meas
-  have e1 : mC (setWorker s { w with pc := .bfClear }) = mC s := mC_congr rfl rfl rfl rfl rfl rfl
+  have e1 : mC (setWorker s { w with pc := .bfClear }) = mC s := mC_congr rfl rfl rfl rfl rfl rfl rfl
   have e2 : mF (setWorker s { w with pc := .bfClear }) = mF s := mF_congr rfl rfl rfl rfl
   have e3 : mR (setWorker s { w with pc := .bfClear }) = mR s := mR_congr rfl rfl
   have e4 : mQ (setWorker s { w with pc := .bfClear }) = mQ s := mQ_congr rfl rfl
